@@ -567,6 +567,47 @@ func passRole(p *Program, fn *ssa.Function) string {
 func ruleClosureRet(r *Run) {
 	p := r.P
 	n := 0
+	// Whether a name was supplied is a question about the KEY: `v := data[name]; if v != nil` also
+	// treats a name supplied with a nil value as unknown (its placeholder then stays in the output
+	// instead of rendering empty).  In the template engine a data table of interface values that is
+	// read without the comma-ok form must not have its result tested against nil.
+	for _, fn := range p.ModFuncs() {
+		if fn.Pkg == nil || fn.Pkg.Pkg.Path() != pkgDoc {
+			continue
+		}
+		top := topLevel(fn)
+		if top.Signature.Recv() == nil || !typeIs(top.Signature.Recv().Type(), pkgDoc, "TemplateEngine") {
+			continue
+		}
+		allInstrs(fn, func(in ssa.Instruction) {
+			lk, ok := in.(*ssa.Lookup)
+			if !ok || lk.CommaOk || lk.Referrers() == nil {
+				return
+			}
+			mt, ok := lk.X.Type().Underlying().(*types.Map)
+			if !ok {
+				return
+			}
+			if _, isIface := mt.Elem().Underlying().(*types.Interface); !isIface {
+				return
+			}
+			if kb, ok := mt.Key().Underlying().(*types.Basic); !ok || kb.Info()&types.IsString == 0 {
+				return
+			}
+			for _, u := range *lk.Referrers() {
+				bo, ok := u.(*ssa.BinOp)
+				if !ok || (bo.Op != token.NEQ && bo.Op != token.EQL) || (!isNilConst(bo.X) && !isNilConst(bo.Y)) || bo.Referrers() == nil {
+					continue
+				}
+				for _, u2 := range *bo.Referrers() {
+					if _, isIf := u2.(*ssa.If); isIf {
+						r.Check("closure-ret", shortName(top)+":presence-by-value", lk.Pos(), false,
+							fmt.Sprintf("%s decides whether a data name was supplied by comparing the looked-up value with nil: a name supplied with a nil value counts as unknown, so its placeholder is left in the output instead of rendering empty (use the comma-ok form)", shortName(top)))
+					}
+				}
+			}
+		})
+	}
 	for _, fn := range p.ModFuncs() {
 		if fn.Parent() == nil || fn.Pkg == nil || fn.Pkg.Pkg.Path() != pkgDoc {
 			continue
